@@ -58,6 +58,13 @@
 (*   Inv_C28_Relays holds for records staked under the current relay         *)
 (*                  parameters (a governance change does not recompute the   *)
 (*                  allowance of existing applications)                      *)
+(* Whole-application predicates that no fragment can state:                  *)
+(*   Inv_ParamsCoherent  the parameters governance stores (s.params) are the *)
+(*                  parameters the modules use (typed c, read through each   *)
+(*                  module's keeper); an incoherence is attributed to the    *)
+(*                  property whose statement reads that parameter            *)
+(*   Inv_C37 / active  every scheduled feature answers "active" exactly from *)
+(*                  its height on, asked through the predicate the code uses *)
 (***************************************************************************)
 EXTENDS ChainAuth, ChainBlock
 
